@@ -78,7 +78,7 @@ CHECKS = {
     "C18": dict(
         technique="UUIDv5 / SHA-1 transcribed into TLA+ (spec/lib/Sha1.tla with 16-bit half words + Bitwise, spec/Uuid.tla) and evaluated by TLC on the exact bytes of every recorded ProguardMapping::uuid call; repeats in 3 other processes must agree; identifiers of section() sub-mappings taken before/after the parent's uuid() call and of clones; normalisation probes (BOM, leading/trailing white space and terminators, NUL, every single byte); reused-buffer histories (one buffer refilled in place with different contents of equal length; freed and reallocated buffers)",
         text="Empty input, SHA-1 block-boundary lengths (55/56/64/119/120), corpus prefixes in LF and CRLF form, random bytes; expected value computed by TLC only.",
-        design="4 C18", note="Function transcription, not state exploration; inputs up to 8 KiB (quick) / 256 KiB (thorough), below the statement's 1 MiB."),
+        design="4 C18", note="Function transcription, not state exploration; inputs up to 8 KiB (quick) / 64 KiB (thorough), below the statement's 1 MiB."),
     "C20": dict(
         technique="Sharing.tla (thread-local cursors over an immutable handle) model-checked for all interleavings, shared-cursor variant refuted; Send+Sync asserted by rustc on 16 public types (harness/sendsync); 2..16 threads behind a barrier query one shared mapper / mapper+params / parsed cache, per-thread sequence numbers, every event validated by TLC against Retrace!Answer; typed/text/signature APIs from 16 threads with cause chains of depth 8..14, every call repeated 150 (quick) / 300 times, unstable results recorded and rejected by TLC; liveness: every thread that keeps stepping finishes its query whatever the others do (MC_Sharing_live, per-thread weak fairness); malformed neighbours in front of every descriptor in each worker thread's stream",
         text="Each concurrent query must return exactly the single-threaded declarative answer.",
